@@ -64,7 +64,8 @@ def prog_plan(ops, rng, nprog):
 def systematic_plan(ops, quick):
     """every same-size binary opcode in the templates where register allocation can hand the destination the
     register of either operand: both operands the same temporary (repeat), the second operand dying while the first
-    stays live (three), the first dying while the second stays live (live)"""
+    stays live (three), the first dying while the second stays live (live); and feeding an accumulator (acc): the
+    narrow steps of the loop leave lanes of the operand undefined, which must stay out of the sum"""
     lines = []
     k = 0
     for o in ops:
@@ -76,8 +77,8 @@ def systematic_plan(ops, quick):
         sd = o["dest"][0]; ss = o["src"]
         if not (len(ss) == 2 and ss[0] == ss[1] == sd):
             continue
-        for tpl in ("repeat", "three", "live"):
-            for mult in ((1,) if quick else (1, 2, 4)):
+        for tpl in ("repeat", "three", "live") + (("acc",) if sd in (2, 4) else ()):
+            for mult in ((1,) if quick or tpl == "acc" else (1, 2, 4)):
                 if sd * mult > 8:
                     continue
                 k += 1
